@@ -19,6 +19,7 @@ import (
 	"encoding/binary"
 	"encoding/gob"
 	"fmt"
+	"math"
 
 	"github.com/attestantio/dirk/rules"
 	"github.com/opentracing/opentracing-go"
@@ -86,6 +87,13 @@ func (s *Service) OnSignBeaconProposal(ctx context.Context, metadata *rules.ReqM
 		return rules.FAILED
 	}
 	slot := req.Slot
+
+	// Slots are stored as signed 64-bit values, so anything beyond that range cannot be protected.
+	if slot > math.MaxInt64 {
+		log.Warn().Uint64("slot", slot).Msg("Request slot out of range")
+
+		return rules.DENIED
+	}
 
 	if state.Slot >= 0 {
 		// The request slot must be greater than the previous request slot.
